@@ -614,7 +614,14 @@ def _iter_segments(
                     # NOTE: We should probably make this configurable on the
                     # matcher object, but for now we're going to look for the
                     # name of the lexer.
-                    if element.matcher.name == "whitespace":
+                    # NOTE: If the element started in an earlier *templated*
+                    # slice (i.e. we've stashed a source start), we can't split
+                    # it any more: fall through and let it span the slices as
+                    # any other element would.
+                    if (
+                        element.matcher.name == "whitespace"
+                        and stashed_source_idx is None
+                    ):
                         # We *can* split it!
                         # Consume what we can from this slice and move on.
                         lexer_logger.debug(
@@ -622,10 +629,6 @@ def _iter_segments(
                             "Existing Consumed: %s",
                             consumed_element_length,
                         )
-                        if stashed_source_idx is not None:
-                            raise NotImplementedError(  # pragma: no cover
-                                "Found literal whitespace with stashed idx!"
-                            )
                         # NOTE: Only count what's left of the element. Some
                         # of it may already have been consumed by a previous
                         # slice if it spans more than two of them.
